@@ -206,6 +206,7 @@ ContentSmall == { << >>,
 
 \* numeric value sets for the cfgs (a cfg cannot spell -1)
 OffGeo    == {Unset, 0, 1, 2, 3, 5}
+OffMid    == {Unset, 0, 2, 3, 4}
 OffSmall  == {Unset, 0, 2, 3}
 OwNone    == {Unset}
 OwSmall   == {Unset, 0, 1, 4}
@@ -217,7 +218,7 @@ Init == /\ \E p \in PartialVals : vol = [partial |-> p, structs |-> << >>]
 Extend(s) == [vol EXCEPT !.structs = Append(@, s)]
 
 CanExtend == /\ Len(vol.structs) < MaxStructs
-             /\ ~Prune \/ accepted \/ vol.structs = << >>
+             /\ ~(Prune /\ ~accepted /\ vol.structs # << >>)    \* (written without \/: TLC would split the action)
 
 \* two actions only so that -coverage counts how many enumerated volumes are accepted / rejected
 AddAccepted == /\ CanExtend
